@@ -31,26 +31,17 @@ const (
 	consAll  = 2 // Next until false, close
 )
 
-// bounds of a scan: index 0 is a nil slice, 1 an empty non-nil slice, 2.. the letters a b c d
-var boundTok = [6]string{"nil", `""`, "a", "b", "c", "d"}
-
-func boundBytes(i uint8) []byte {
-	switch i {
-	case 0:
-		return nil
-	case 1:
-		return []byte{}
-	}
-	return []byte(boundTok[i])
-}
+// bounds of a scan: index 0 is a nil slice, 1 an empty non-nil slice, 2.. the
+// other bounds of the universe in ascending order (plain universe: the letters a b c d)
 
 var consTok = [3]string{"none", "one", "all"}
 
 // op is one call on the sandbox.
 type op struct {
 	kind    opKind
+	u       uint8 // index into universes (get / put / del / sel)
 	bkt     uint8 // index into bucketNames
-	key     uint8 // index into keyNames (get / put / del)
+	key     uint8 // index into the keys of the universe (get / put / del)
 	val     string
 	s, e    uint8 // bound indexes (sel)
 	consume uint8
@@ -96,15 +87,16 @@ func (p payer) need(amt uint32) int {
 }
 
 func (o op) String() string {
+	u := universes[o.u]
 	switch o.kind {
 	case opGet:
-		return fmt.Sprintf("get %s %s", bucketNames[o.bkt], keyNames[o.key])
+		return fmt.Sprintf("get %s %s", bucketNames[o.bkt], u.ktok[o.key])
 	case opPut:
-		return fmt.Sprintf("put %s %s %s", bucketNames[o.bkt], keyNames[o.key], o.val)
+		return fmt.Sprintf("put %s %s %s", bucketNames[o.bkt], u.ktok[o.key], o.val)
 	case opDel:
-		return fmt.Sprintf("del %s %s", bucketNames[o.bkt], keyNames[o.key])
+		return fmt.Sprintf("del %s %s", bucketNames[o.bkt], u.ktok[o.key])
 	case opSel:
-		return fmt.Sprintf("sel %s %s %s %s", bucketNames[o.bkt], boundTok[o.s], boundTok[o.e], consTok[o.consume])
+		return fmt.Sprintf("sel %s %s %s %s", bucketNames[o.bkt], u.btok[o.s], u.btok[o.e], consTok[o.consume])
 	case opXfer:
 		// the sender A is implied (format of the replay files written before
 		// the other payers existed)
@@ -125,7 +117,7 @@ func indexOf(list []string, s string) int {
 	return -1
 }
 
-func parseOp(s string) (op, error) {
+func parseOp(u *universe, s string) (op, error) {
 	f := strings.Fields(s)
 	bad := fmt.Errorf("bad operation %q", s)
 	if len(f) < 2 {
@@ -157,13 +149,13 @@ func parseOp(s string) (op, error) {
 	if b < 0 {
 		return o, bad
 	}
-	o.bkt = uint8(b)
+	o.bkt, o.u = uint8(b), u.idx
 	switch f[0] {
 	case "get", "put", "del":
 		if len(f) < 3 {
 			return o, bad
 		}
-		k := indexOf(keyNames[:], f[2])
+		k := indexOf(u.ktok, f[2])
 		if k < 0 {
 			return o, bad
 		}
@@ -185,7 +177,7 @@ func parseOp(s string) (op, error) {
 		if len(f) != 5 {
 			return o, bad
 		}
-		s, e, c := indexOf(boundTok[:], f[2]), indexOf(boundTok[:], f[3]), indexOf(consTok[:], f[4])
+		s, e, c := indexOf(u.btok, f[2]), indexOf(u.btok, f[3]), indexOf(consTok[:], f[4])
 		if s < 0 || e < 0 || c < 0 {
 			return o, bad
 		}
@@ -210,7 +202,7 @@ func boundsClass(s, e uint8) string {
 	case e == 0:
 		return "nil_end"
 	case s >= 2 && e == 1:
-		return "inverted_range" // start letter > ""
+		return "inverted_range" // start > ""
 	case e == 1:
 		return "empty_string_end"
 	case s < 2:
@@ -243,6 +235,7 @@ const maxYield = 12
 
 // observation renders what the caller saw (also used to compare a run with its replay).
 func (o op) observation(r opResult) string {
+	u := universes[o.u]
 	switch {
 	case r.panicked:
 		return "panic: " + r.panicMsg
@@ -259,7 +252,7 @@ func (o op) observation(r opResult) string {
 			if i > 0 {
 				sb.WriteString(" ")
 			}
-			fmt.Fprintf(&sb, "%s=%q", it.k, it.v)
+			fmt.Fprintf(&sb, "%s=%q", u.show(it.k), it.v)
 		}
 		sb.WriteString("]")
 		if r.iterErr {
@@ -281,20 +274,21 @@ func execOp(sb contract.StateSandbox, o op, to string) (r opResult) {
 		}
 	}()
 	bucket := bucketNames[o.bkt]
+	u := universes[o.u]
 	switch o.kind {
 	case opGet:
-		v, err := sb.Get(bucket, []byte(keyNames[o.key]))
+		v, err := sb.Get(bucket, u.keyBytes(int(o.key)))
 		if err != nil {
 			r.err = true
 		} else {
 			r.val = string(v)
 		}
 	case opPut:
-		r.err = sb.Put(bucket, []byte(keyNames[o.key]), []byte(o.val)) != nil
+		r.err = sb.Put(bucket, u.keyBytes(int(o.key)), []byte(o.val)) != nil
 	case opDel:
-		r.err = sb.Del(bucket, []byte(keyNames[o.key])) != nil
+		r.err = sb.Del(bucket, u.keyBytes(int(o.key))) != nil
 	case opSel:
-		it, err := sb.Select(bucket, boundBytes(o.s), boundBytes(o.e))
+		it, err := sb.Select(bucket, u.bounds[o.s], u.bounds[o.e])
 		if err != nil {
 			r.err = true
 			return
@@ -348,11 +342,12 @@ type cell struct {
 
 type ref struct {
 	b  backing
-	ov [3][3]cell // [bucket][key]
+	u  *universe
+	ov [3][maxKeys]cell // [bucket][key]
 	// need: keys the read set must hold, with the reason
-	need [3][3]string
+	need [3][maxKeys]string
 	// touched: read by Get earlier in this execution
-	touched [3][3]bool
+	touched [3][maxKeys]bool
 	// successful transfers, in order
 	xfers []xferRec
 	// avail: outputs of each payer not yet selected (locked) by a transfer of
@@ -369,7 +364,7 @@ type xferRec struct {
 }
 
 func newRef(b backing) *ref {
-	rf := &ref{b: b}
+	rf := &ref{b: b, u: b.u}
 	for i, p := range payers {
 		rf.avail[i] = p.nOut
 	}
@@ -416,7 +411,7 @@ func (rf *ref) lookup(bkt, key int) (val string, live bool, src string) {
 		return c.val, true, "own_put"
 	}
 	if bkt == 0 {
-		switch rf.b[key] {
+		switch rf.b.st[key] {
 		case stLive:
 			return liveValue(key), true, "backing_live"
 		case stDeleted:
@@ -428,7 +423,7 @@ func (rf *ref) lookup(bkt, key int) (val string, live bool, src string) {
 
 // status describes a key name that a scan yielded.
 func (rf *ref) status(bkt int, k string) (key int, val string, live bool, src string) {
-	key = indexOf(keyNames[:], k)
+	key = rf.u.keyIndex(k)
 	if key < 0 {
 		return -1, "", false, "unknown_key"
 	}
@@ -453,7 +448,7 @@ func (rf *ref) valClass(bkt, key int, v string) string {
 		return "empty_value"
 	}
 	if key >= 0 {
-		if bkt == 0 && rf.b[key] != stAbsent && v == liveValue(key) {
+		if bkt == 0 && rf.b.st[key] != stAbsent && v == liveValue(key) {
 			return "backing_value"
 		}
 		for _, h := range rf.ov[bkt][key].hist {
@@ -468,29 +463,54 @@ func (rf *ref) valClass(bkt, key int, v string) string {
 	return "other_value"
 }
 
-// scanWant is the exact answer for letter bounds: live keys of [s,e) ascending.
+// inRange: is the key inside [bounds[s], bounds[e]) in byte order (both bounds non-nil).
+func (u *universe) inRange(key string, s, e uint8) bool {
+	return key >= string(u.bounds[s]) && key < string(u.bounds[e])
+}
+
+// scanWant is the exact answer for non-nil bounds: live keys of [s,e) ascending.
 func (rf *ref) scanWant(bkt int, s, e uint8) []kv {
 	var out []kv
-	for k := 0; k < 3; k++ {
-		b := uint8(k + 2)
-		if b < s || b >= e {
+	for k, name := range rf.u.keys {
+		if !rf.u.inRange(name, s, e) {
 			continue
 		}
 		if v, live, _ := rf.lookup(bkt, k); live {
-			out = append(out, kv{keyNames[k], v})
+			out = append(out, kv{name, v})
 		}
 	}
 	return out
 }
 
-// packed abstract state of the reference: per bucket/key 2 bits overlay
-// (none, put, del) + 1 bit "must be in the read set", the unselected outputs
-// of A (4 bits) and C (2 bits), "a transfer was refused" (1 bit) and the
-// backing index.
-func (rf *ref) packed() uint64 {
+// layers says where rows of the bucket are held when a scan starts: how many
+// keys this execution wrote and how many it read (Get, Put and Del read the
+// store first; a scan reads what it yields).
+func (rf *ref) layers(bkt int) (written, read int) {
+	for k := range rf.u.keys {
+		if rf.ov[bkt][k].written {
+			written++
+		}
+		if rf.need[bkt][k] != "" || rf.touched[bkt][k] {
+			read++
+		}
+	}
+	return
+}
+
+// stateID is the packed abstract state of the reference: per bucket/key 2 bits
+// overlay (none, put, del) + 1 bit "must be in the read set", the unselected
+// outputs of A (4 bits) and C (2 bits), "a transfer was refused" (1 bit); the
+// backing index and the universe.
+type stateID struct {
+	x uint64
+	b uint16
+	u uint8
+}
+
+func (rf *ref) packed() stateID {
 	var x uint64
 	for b := 0; b < 3; b++ {
-		for k := 0; k < 3; k++ {
+		for k := range rf.u.keys {
 			var c uint64
 			if rf.ov[b][k].written {
 				c = 1
@@ -510,5 +530,5 @@ func (rf *ref) packed() uint64 {
 	if len(rf.refused) > 0 {
 		x |= 1
 	}
-	return x<<5 | uint64(rf.b.index())
+	return stateID{x: x, b: uint16(rf.b.index()), u: rf.u.idx}
 }
